@@ -86,6 +86,7 @@ type Params struct {
 	ReleaseTime       int64
 	FundingDeadline   int64
 	VotingDeadline    int64
+	ProdGov           bool // proposal deadlines inside the ranges the option validation demands (10000 blocks and more)
 	PropInitialFund   string
 	PropFundingGoal   string
 	UserOLT           string // per user genesis balance, in nue
@@ -353,11 +354,22 @@ func (w *World) buildGenesis() error {
 	initFund := amt(p.PropInitialFund)
 	goal := amt(p.PropFundingGoal)
 	mkOpt := func(exec string) governance.ProposalOption {
+		fd, vd := p.FundingDeadline, p.VotingDeadline
+		if p.ProdGov {
+			switch exec {
+			case "executionCostConfig":
+				fd, vd = 10000, 10000
+			case "executionCostCodeChange":
+				fd, vd = 10000, 150000
+			default:
+				fd, vd = 75000, 75000
+			}
+		}
 		return governance.ProposalOption{
 			InitialFunding:         &initFund,
 			FundingGoal:            &goal,
-			FundingDeadline:        p.FundingDeadline,
-			VotingDeadline:         p.VotingDeadline,
+			FundingDeadline:        fd,
+			VotingDeadline:         vd,
 			PassPercentage:         51,
 			PassedFundDistribution: passed,
 			FailedFundDistribution: failed,
